@@ -138,3 +138,32 @@ package s2
 //@   modifies p.index.cells, p.index.cellMap, p.index.pendingRemovals, p.index.pendingAdditionsPos, p.index.status
 //@   ensures [disjoint-from-index] (forall k int :: 0 <= k && k < len(p.index.cells) ==> !p.index.cells[k].Intersects(cell.id)) ==> !result
 //@   ensures [index-cell-itself] (exists k int :: 0 <= k && k < len(p.index.cells) && p.index.cells[k] == cell.id) ==> result
+
+// ---------------------------------------------------------------- the same two predicates for a loop
+
+//@ property C05
+
+//@ func (l *Loop) boundaryApproxIntersects(it *ShapeIndexIterator, target Cell) bool
+//@   assumed "clipped-edge test in uv space (floating point): value not decided"
+//@   requires l != nil && it != nil
+
+//@ func (c Cell) Center() Point
+//@   assumed "cell centre (floating point): a deterministic function of the cell, value not decided"
+//@   pure
+
+// what a loop's own built index holds for every index cell (the precondition of Loop.iteratorContainsPoint)
+//@ spec func vcLoopCellOK(l *Loop, c *ShapeIndexCell) bool = c != nil && len(c.shapes) == 1 && c.shapes[0] != nil && c.shapes[0].shapeID == 0 &&
+//@    (forall e int :: 0 <= e && e < len(c.shapes[0].edges) ==> 0 <= c.shapes[0].edges[e] && c.shapes[0].edges[e] < len(l.vertices))
+//@ spec func vcLoopIndexOK(l *Loop) bool = forall k int :: 0 <= k && k < len(l.index.cells) ==> vcLoopCellOK(l, l.index.cellMap[l.index.cells[k]])
+
+// IntersectsCell: disjoint from the index means no intersection, an index cell itself intersects, and when the answer falls
+// through to the containment test it is the containment of the TARGET's centre (parity from the index cell's centre to it)
+//@ func (l *Loop) IntersectsCell(target Cell) bool
+//@   absmod
+//@   ghost gk int
+//@   requires l != nil && len(l.vertices) >= 1 && vcSI(l.index) && !vcHeld(&l.index.mu) && l.index.status == fresh && vcIdx(l.index) && vcValid(target.id) && vcLoopIndexOK(l)
+//@   modifies l.index.cells, l.index.cellMap, l.index.pendingRemovals, l.index.pendingAdditionsPos, l.index.status
+//@   ensures [disjoint-from-index] (forall k int :: 0 <= k && k < len(l.index.cells) ==> !l.index.cells[k].Intersects(target.id)) ==> !result
+//@   ensures [index-cell-itself] (exists k int :: 0 <= k && k < len(l.index.cells) && l.index.cells[k] == target.id) ==> result
+//@   ensures [falls-through-to-the-targets-centre] 0 <= gk && gk < len(l.index.cells) && l.index.cells[gk].Contains(target.id) && l.index.cells[gk] != target.id && !result ==>
+//@      !(l.index.cellMap[l.index.cells[gk]].shapes[0].containsCenter != vcClipParity(l, l.index.cellMap[l.index.cells[gk]].shapes[0].edges, l.index.cells[gk].Point(), target.Center(), len(l.index.cellMap[l.index.cells[gk]].shapes[0].edges)))
